@@ -252,10 +252,24 @@ def check_workers_empty(ctx):
         f = repo.fn(path, qual)
         view = view_of(f)
         conds = Conds(f.node, expander(view))
-        loops = [n for n in walk_own(f.node) if isinstance(n, ast.For) and 'empty' in U(n.iter)]
+        loops = [(n, n.iter) for n in walk_own(f.node) if isinstance(n, ast.For) and 'empty' in U(n.iter)]
+        if not loops:
+            # the pairing loop moved into a helper: the call statement is the site, the argument bound to the
+            # parameter the helper iterates is the iterated list
+            for n in walk_own(f.node):
+                if not isinstance(n, ast.Call):
+                    continue
+                r = repo.resolve_call(f, n)
+                if r is None or r[1] != 'func':
+                    continue
+                callee, _, b = r
+                for p_, a in b.items():
+                    if 'empty' in U(a) and any(isinstance(x, ast.For) and isinstance(x.iter, ast.Name) and x.iter.id == p_
+                                               for x in walk_own(callee.node)):
+                        loops.append((view.stmt_of(n), a))
         if len(loops) != 1:
             raise AnalysisError('%s: loop over the empty records not found' % f.where)
-        lp = loops[0]
+        lp, lp_iter = loops[0]
         c = conds.of(lp)
         lits = [(e, pol) for _, e, pol in literals(c)]
         # reference: flag and <right token count> == 0
@@ -275,7 +289,7 @@ def check_workers_empty(ctx):
                   'the empty branch runs under `%s`, expected exactly `%s and <right token count> == 0`' % (show(c), flag), lp,
                   sample=show(c))
         # provenance of the iterated list: <Index>(...).build(<same flag>, ...)['empty_records']
-        it = view.expand(lp.iter, lp)
+        it = view.expand(lp_iter, lp)
         ok = isinstance(it, ast.Subscript) and isinstance(it.slice, ast.Constant) and it.slice.value == 'empty_records' \
             and isinstance(it.value, ast.Call) and call_name(it.value) == 'build'
         got = None
